@@ -9,6 +9,15 @@ ROOT = pathlib.Path(__file__).resolve().parent.parent
 
 # id -> (technique, level text, level_note, design_ref)
 CHECKS = {
+    "C15": (
+        "differential: random scripts on the real TrackedDfg vs the same script replayed on a plain Dfg with a harness-side tracking model; per-step tracked-list equality; final HUGR equality",
+        "5000 (quick) / 150000 (thorough) scripts over track_wire / track_wires / track_inputs / untrack_wire / add / extend / "
+        "set_indexed_outputs / set_tracked_outputs with mixed integer and wire arguments (1-3 qubit ops, measure, copyable fan-out, ops whose "
+        "argument position differs from the rebinding port) on circuits of width 1-6: `tracked` must equal the model after every step, "
+        "IndexError must be raised exactly for untracked indices, and the resulting HUGR must equal the explicitly wired one incl. metadata.",
+        "Trusted: the 30-line tracking model in vf/props/c15.py. Negative indices not exercised.",
+        "DESIGN.md §3 C15",
+    ),
     "C08": (
         "snapshot differential: raw-index snapshots of A and B before, of A' and B after insert_hugr / insert_* ; the returned (or hierarchy-derived) mapping is checked as an isomorphism and everything else for identity",
         "1500 (quick) / 50000 (thorough) pairs (A, B) from programs and mutation histories (B with holes, index reuse, multi-linked ports, "
